@@ -116,8 +116,11 @@ TRUSTED = [
     "Coq 8.16.1 kernel + vm_compute (no native_compute)",
     "hand-written model coq/Model/Frame.v of tensor_frame.py and utils/concat.py (+ Model/Ragged.v, Model/RaggedCat.v "
     "for the ragged containers), tied to /repo by this run's observational correspondence",
-    "modelled primitives: torch.cat of dense tensors (shape agreement), torch.allclose on one pair of scalars (on the "
-    "grid of multiples of 1/8 below 1000 it is equality; NaN never close unless equal_nan), dict equality",
+    "modelled primitives: torch.cat of dense tensors (shape agreement), dict equality; torch.allclose on one pair of "
+    "scalars is no longer a parameter: Model/Allclose.v models |a-b| <= atol + rtol*|b| over Q (rtol 1e-5, atol 1e-8), "
+    "proved equal to equality on the 1/8 grid (grid_tolerance_is_equality), used by the frame correspondence "
+    "(tf_eq close_grid) and compared with torch.allclose on ~450 scalar pairs around the tolerance each run; floating-"
+    "point rounding of the bound itself (pairs within 1e-9*tol, 1e-3*tol in float32) is not modelled",
     "section hypotheses H_*_cat_* of Props/C08.v (cells of the ragged cat = concatenation of cells) are discharged for "
     "the model of Model/RaggedCat.v by the C06 theorems (row/col_partition_roundtrip_model); their instances are also "
     "evaluated on every partition case of this run (c08_hyp_*)",
@@ -1185,7 +1188,7 @@ def generate(rng, tier):
         if c["kind"] in ("rowpart", "colpart", "perturb", "lookup", "indep", "boundary"):
             c["a"], c["b"] = decorate(rng, c["a"]), decorate(rng, c["b"])
     cases += ctor_rejections(rng) + dict2_rejections(rng) + cat_rejections(rng) + nan_target_cases(rng) + misc_rejections(rng) \
-        + nan_perturb_cases(rng)
+        + nan_perturb_cases(rng) + allclose_cases()
     if tier == "thorough":
         cases += exhaustive(rng)
     return cases
@@ -1231,6 +1234,35 @@ def extra(tier, rng):
     if bool(torch.allclose(nan, torch.tensor([1.0]), equal_nan=True)):
         fails.append(dict(key="primitive:allclose-nan", case=None, what="allclose(nan, 1.0, equal_nan=True) is True"))
     return fails[:3], {"allclose_primitive_checks": count}
+
+
+def allclose_cases():
+    """torch.allclose on one pair of scalars around atol + rtol*|other| -- just inside, just beyond, exactly at, half and
+    twice the tolerance, both signs, both operand orders, float64 and float32 -- as correspondence cases for the rational
+    model Model/Allclose.v (the same pairs extra() judges with exact rationals)"""
+    import torch
+    from fractions import Fraction as Fr
+    atol, rtol = Fr(1, 10 ** 8), Fr(1, 10 ** 5)
+    pairs = []
+    xs = [0.0, 0.125, -0.125, 1.0, 7.875, -64.5, 500.0, 999.875, -999.875, 1e5, 123456.0]
+    for dt, eps in (("float64", 2.0 ** -20), ("float32", 2.0 ** -6)):
+        tdt = torch.float64 if dt == "float64" else torch.float32
+        for b in xs:
+            tol = float(atol + rtol * abs(Fr(b)))
+            for factor in (1 - eps, 1 + eps, 1.0, 0.5, 2.0, 0.0):
+                for sign in (1, -1):
+                    a_ = torch.tensor([b + sign * tol * factor], dtype=tdt).item()
+                    b_ = torch.tensor([b], dtype=tdt).item()
+                    for x, z in ((a_, b_), (b_, a_)):
+                        margin = abs(Fr(x) - Fr(z)) - (atol + rtol * abs(Fr(z)))
+                        lim = Fr(tol) * (Fr(1, 1000) if dt == "float32" else Fr(1, 10 ** 9))
+                        if margin != 0 and abs(margin) < lim:
+                            continue            # within the rounding of the bound itself in floating point
+                        if margin == 0 and dt == "float32":
+                            continue
+                        pairs.append([x, z, dt])
+    return [{"kind": "allclose", "sub": "pairs", "pairs": pairs[k:k + 60], "a": None, "b": None, "lookups": [], "meta": {}}
+            for k in range(0, len(pairs), 60)]
 
 
 REQUIRED_STREAMS = [           # prefixes of kind/sub-kind; each has an expected count >= 20 per quick run
@@ -1293,6 +1325,8 @@ def sanity(cases, obss):
               "perturb/nan-cell:value->nan:mnt", "perturb/nan-cell:nan->value:met", "perturb/nan-cell:value->nan:met"):
         if not any(k_.startswith(k) and v_ > 0 for k_, v_ in d["subkinds"].items()):
             probs.append(f"stream {k} never drawn")
+    if d.get("allclose_pairs", 0) < 300:
+        probs.append(f"only {d.get('allclose_pairs', 0)} torch.allclose pairs compared with Model/Allclose.v")
     if d["ne_checks"] == 0 or d["nonframe_eq_checks"] == 0:
         probs.append("!= / __neq__ / comparison with a non-frame never observed")
     return probs
@@ -1354,6 +1388,13 @@ def run_sub(case, env, log, trace=None):
 
 
 def run(case):
+    if case["kind"] == "allclose":
+        import torch
+        out = []
+        for x, z, dt in case["pairs"]:
+            tdt = torch.float64 if dt == "float64" else torch.float32
+            out.append(bool(torch.allclose(torch.tensor([x], dtype=tdt), torch.tensor([z], dtype=tdt))))
+        return {"decisions": out, "a": {"ok": True}}
     log, trace = [], []
     if case["kind"] != "reuse":
         obs = run_sub(case, None, log, trace)
@@ -1463,6 +1504,14 @@ def pure_checks(case):
 def oracle(case, obs):
     if "harness_exc" in obs:
         return dict(key="harness-exc", what="harness failed to run the case: " + obs["harness_exc"], tb=obs.get("tb"))
+    if case["kind"] == "allclose":
+        from fractions import Fraction as Fr
+        for (x, z, dt), got in zip(case["pairs"], obs["decisions"]):
+            want = abs(Fr(x) - Fr(z)) <= Fr(1, 10 ** 8) + Fr(1, 10 ** 5) * abs(Fr(z))
+            if got != want:
+                return dict(key="primitive:allclose", what=f"torch.allclose({x!r}, {z!r}) [{dt}] = {got}, "
+                            f"|x - z| <= atol + rtol*|z| is {want}", expected=want, observed=got)
+        return None
     if obs.get("mutated"):
         m = obs["mutated"][0]
         return dict(key="cat-mutated-input",
@@ -1589,6 +1638,11 @@ def oracle(case, obs):
 
 
 def shrink(case):
+    if case["kind"] == "allclose":
+        for k in range(len(case["pairs"])):
+            if len(case["pairs"]) > 1:
+                yield dict(case, pairs=case["pairs"][:k] + case["pairs"][k + 1:])
+        return
     if case["kind"] != "reuse":
         case = plain(case)
     if case["kind"] == "reuse":
@@ -1641,6 +1695,8 @@ def shrink(case):
 def nontrivial_sig(case, obs):
     if not isinstance(obs, dict) or "a" not in obs:
         return None
+    if case["kind"] == "allclose":
+        return json.dumps(["allclose", case["pairs"][0]])
     case = plain(case)
     oa = obs["a"]
     kd = kinds_of_expr(case["a"])
@@ -1668,6 +1724,9 @@ def stats(cases, obss):
          "nonframe_eq_checks": 0}
     for c, o in zip(cases, obss):
         if c is None or not isinstance(o, dict) or "a" not in o:
+            continue
+        if c["kind"] == "allclose":
+            d["allclose_pairs"] = d.get("allclose_pairs", 0) + len(c["pairs"])
             continue
         forms_of(c["a"], d["forms"])
         forms_of(c.get("b"), d["forms"])
@@ -1781,6 +1840,12 @@ def store_terms(obs):
 
 
 def coq_term(case, obs):
+    if case["kind"] == "allclose":
+        ts = []
+        for (x, z, dt), got in zip(case["pairs"], obs["decisions"]):
+            (xn, xd), (zn, zd) = float(x).as_integer_ratio(), float(z).as_integer_ratio()
+            ts.append(f"c08_allclose_check {C.cz(xn)} {xd}%positive {C.cz(zn)} {zd}%positive {C.cbool(got)}")
+        return "(" + " && ".join(ts) + ")"
     t = coq_term_main(case, obs)
     if t is None:
         return None
